@@ -38,6 +38,10 @@ type Safe struct {
 	work     int
 	Allocs   []AllocSite
 	allocIdx map[string]int
+	wrapAtoms map[string]atomID
+	wrapSrc   map[atomID]*Lin
+	LenRule   bool // evaluate the length-covers rule at returns of serialisers
+	Quiet     bool // do not record panic obligations (serialiser runs)
 	// configuration
 	AssumeTree bool
 }
@@ -72,6 +76,9 @@ func (sa *Safe) callPath() []string {
 // oblige records the outcome of a proof obligation. An obligation key seen in several
 // contexts is discharged only if it is discharged in all of them.
 func (sa *Safe) oblige(rule string, fn *ssa.Function, what string, pos token.Pos, ok bool, detail string) {
+	if sa.Quiet && strings.HasPrefix(rule, "safe.") {
+		return
+	}
 	name := SSAFuncName(fn)
 	key := rule + " / " + name + " / " + what
 	o := sa.Obls[key]
@@ -445,4 +452,89 @@ func (sa *Safe) addAlloc(a AllocSite) {
 	}
 	sa.allocIdx[k] = len(sa.Allocs)
 	sa.Allocs = append(sa.Allocs, a)
+}
+
+func (sa *Safe) noteBuffer(fr *frame, o *AObj) {
+	for _, b := range fr.bufs {
+		if b == o {
+			return
+		}
+	}
+	fr.bufs = append(fr.bufs, o)
+}
+
+// unwrap replaces wrap atoms (possible truncation) by the expression they were computed from.
+func (sa *Safe) unwrap(l *Lin) *Lin {
+	if l == nil {
+		return nil
+	}
+	out := linConst(l.C)
+	for a, k := range l.T {
+		if src, ok := sa.wrapSrc[a]; ok {
+			out = out.add(sa.unwrap(src), k)
+		} else {
+			out = out.add(linAtom(a), k)
+		}
+	}
+	return out
+}
+
+// checkLenCovers: in the write log of each buffer created by this activation, a non-constant
+// integer that shares an unknown with the sizes of later items is a length field and must equal
+// the total size of the next k items for some k >= 1.
+func (sa *Safe) checkLenCovers(fr *frame, st *State, pos token.Pos) {
+	for _, o := range fr.bufs {
+		log, ok := st.logs[o]
+		if !ok {
+			continue
+		}
+		for i, e := range log {
+			if e.Val == nil {
+				continue
+			}
+			v := sa.unwrap(e.Val)
+			if _, isC := v.isConst(); isC {
+				continue
+			}
+			shares := false
+			for _, later := range log[i+1:] {
+				if later.Size == nil {
+					continue
+				}
+				for a := range sa.unwrap(later.Size).T {
+					if _, ok := v.T[a]; ok {
+						shares = true
+					}
+				}
+			}
+			if !shares {
+				continue
+			}
+			sum := linConst(0)
+			covered := false
+			var sizes []string
+			for _, later := range log[i+1:] {
+				if later.Size == nil {
+					sizes = append(sizes, "?")
+					break
+				}
+				sum = sum.add(sa.unwrap(later.Size), 1)
+				sizes = append(sizes, sa.u.linString(later.Size))
+				d := v.add(sum, -1)
+				if c, ok := d.isConst(); ok && c == 0 {
+					covered = true
+					break
+				}
+			}
+			what := "length field " + e.Desc
+			detail := ""
+			if !covered {
+				detail = "the value written as " + e.Desc + " (" + sa.u.linString(v) + ") does not equal the total size of any run of the items written after it (sizes: " + strings.Join(sizes, ", ") + ")"
+			}
+			save := sa.Quiet
+			sa.Quiet = false
+			sa.oblige("seq.len-covers", fr.fn, what, token.Pos(e.Pos), covered, detail)
+			sa.Quiet = save
+		}
+	}
 }
